@@ -5,11 +5,16 @@
 //	ops:  range  M T   -> plan        rr M T -> plan        sticky M T -> plan
 //	      coop   M T   -> pre # post # pub   (sticky plan before / after AdjustCooperative from one engine run; public path)
 //	      krange KM S  -> plan        kuniform KM S -> plan
+//	      sticky@R M T / coop@R M T: the same input balanced R times (the engine numbers topics in Go map
+//	      iteration order, so one input has several executions); the distinct outputs, sorted, joined by " @@ "
 //
 // Encodings are described in lean/Driver/C25.lean.
 package main
 
 import (
+	"sort"
+	"strconv"
+	"strings"
 	"time"
 
 	"github.com/twmb/franz-go/pkg/kgo"
@@ -36,6 +41,17 @@ func emitAll(r *hx.Rng, ms []bal.Mem, ts []bal.Topic, kinds string) {
 			km := bal.ForKfake(r, ms)
 			hx.Emit("kuniform %s %s", bal.EncKMembers(km), t)
 		}
+	}
+}
+
+// emitRep emits the sticky (sreps > 0) and cooperative-sticky (creps > 0) balancers with repetitions.
+func emitRep(ms []bal.Mem, ts []bal.Topic, sreps, creps int) {
+	m, t := bal.EncMembers(ms), bal.EncTopics(ts)
+	if sreps > 0 {
+		hx.Emit("sticky@%d %s %s", sreps, m, t)
+	}
+	if creps > 0 {
+		hx.Emit("coop@%d %s %s", creps, m, t)
 	}
 }
 
@@ -104,6 +120,59 @@ func gen(a hx.Args) {
 		}
 		emitAll(r, ms, ts, "roscKU")
 	}
+	// --- the sticky engine's complex path (steal graph search): members with different, overlapping
+	// subscriptions over many small topics, skewed prior ownership. Every input is balanced several times.
+	for i := 0; i < a.N(24000, 150000); i++ {
+		ms, ts := bal.Hard(r)
+		if i%2 == 0 {
+			emitRep(ms, ts, 8, 4)
+		} else {
+			emitRep(ms, ts, 8, 0)
+		}
+	}
+	// the C26 generator's shapes (every member a few topics, rings; ownership skewed per topic)
+	for i := 0; i < a.N(2000, 30000); i++ {
+		var ms []bal.Mem
+		var ts []bal.Topic
+		switch i % 4 {
+		case 0:
+			ms, ts = bal.Sparse(r, 8, 12, 3)
+		case 1:
+			ms, ts = bal.Sparse(r, 8, 12, 6)
+		default:
+			ms, ts = bal.Sparse(r, 7, 6, 5)
+		}
+		emitRep(ms, ts, 8, 4*(i%2))
+	}
+	// mutation stream: one to three rounds of small edits of a known-hard input (the steal-back input of
+	// seeded/C25-steal-back-keeps-old-edge and the other seeds of bal.Seeds) ...
+	sm, st := bal.Seeds()
+	for i := 0; i < a.N(2500, 30000); i++ {
+		k := r.Intn(len(sm))
+		if i%4 == 0 {
+			k = 0
+		}
+		ms, ts := bal.Mutate(r, sm[k], st[k])
+		for d := r.Intn(3); d > 0; d-- {
+			ms, ts = bal.Mutate(r, ms, ts)
+		}
+		emitRep(ms, ts, 12, 6*(i%2))
+	}
+	// ... and of fresh groups of the shapes above
+	for i := 0; i < a.N(1500, 20000); i++ {
+		var ms []bal.Mem
+		var ts []bal.Topic
+		switch i % 3 {
+		case 0:
+			ms, ts = bal.Sparse(r, 7, 6, 5)
+		case 1:
+			ms, ts = bal.Hard(r)
+		default:
+			ms, ts = bal.Random(r, bal.Shape{MaxMembers: 8, MaxTopics: 12, MaxParts: 6})
+		}
+		ms, ts = bal.Mutate(r, ms, ts)
+		emitRep(ms, ts, 8, 0)
+	}
 	// --- large groups
 	for i := 0; i < a.N(6, 60); i++ {
 		ms, ts := bal.Random(r, bal.Shape{MaxMembers: 200, MaxTopics: 50, MaxParts: 24})
@@ -115,6 +184,15 @@ func run() {
 	hx.RunLines(20*time.Second, func(t []string) string {
 		if len(t) != 3 {
 			return "bad-op"
+		}
+		reps := 1
+		if i := strings.IndexByte(t[0], '@'); i >= 0 {
+			reps, _ = strconv.Atoi(t[0][i+1:])
+			t[0] = t[0][:i]
+			if reps < 1 || reps > 1000 || (t[0] != "sticky" && t[0] != "coop") {
+				return "bad-op"
+			}
+			hx.St.Inc("op_" + t[0] + "_repeated")
 		}
 		hx.St.Inc("op_" + t[0])
 		if t[0] == "krange" || t[0] == "kuniform" {
@@ -134,14 +212,38 @@ func run() {
 		case "rr":
 			return bal.ShowPlan(bal.RunPublic(kgo.RoundRobinBalancer(), bal.JoinMembers(ms, "plain"), ts))
 		case "sticky":
-			return bal.ShowPlan(bal.RunPublic(kgo.StickyBalancer(), bal.JoinMembers(ms, "sticky"), ts))
+			return repeat(reps, 1, func() string {
+				return bal.ShowPlan(bal.RunPublic(kgo.StickyBalancer(), bal.JoinMembers(ms, "sticky"), ts))
+			})
 		case "coop":
-			pre, post := bal.RunCoopHook(bal.JoinMembers(ms, "coop"), ts)
-			pub := bal.RunPublic(kgo.CooperativeStickyBalancer(), bal.JoinMembers(ms, "coop"), ts)
-			return bal.ShowPlan(pre) + " # " + bal.ShowPlan(post) + " # " + bal.ShowPlan(pub)
+			return repeat(reps, 2, func() string {
+				pre, post := bal.RunCoopHook(bal.JoinMembers(ms, "coop"), ts)
+				pub := bal.RunPublic(kgo.CooperativeStickyBalancer(), bal.JoinMembers(ms, "coop"), ts)
+				return bal.ShowPlan(pre) + " # " + bal.ShowPlan(post) + " # " + bal.ShowPlan(pub)
+			})
 		}
 		return "bad-op"
 	})
+}
+
+// repeat runs one input reps times and returns the distinct outputs, sorted, joined by " @@ ": validity does
+// not depend on the engine's internal topic numbering, so every repetition is judged on its own.
+func repeat(reps, enginePerRun int, f func() string) string {
+	seen := map[string]bool{}
+	var outs []string
+	for i := 0; i < reps; i++ {
+		o := f()
+		if !seen[o] {
+			seen[o] = true
+			outs = append(outs, o)
+		}
+	}
+	hx.St.Add("sticky_engine_runs", reps*enginePerRun)
+	if reps > 1 {
+		hx.St.Inc("repeated_distinct_outputs_" + bucket(len(outs)))
+	}
+	sort.Strings(outs)
+	return strings.Join(outs, " @@ ")
 }
 
 func bucket(n int) string {
@@ -172,7 +274,11 @@ func stat(ms []bal.Mem, ts []bal.Topic) {
 	}
 	claimed := map[string]int{}
 	dupSub := false
+	uneven := false
 	for _, m := range ms {
+		if strings.Join(m.Subs, "+") != strings.Join(ms[0].Subs, "+") {
+			uneven = true
+		}
 		seenT := map[string]bool{}
 		for _, t := range m.Subs {
 			if seenT[t] {
@@ -235,6 +341,11 @@ func stat(ms []bal.Mem, ts []bal.Topic) {
 	}
 	if dupSub {
 		hx.St.Inc("subscription_lists_topic_twice")
+	}
+	if uneven {
+		hx.St.Inc("subscriptions_uneven")
+	} else {
+		hx.St.Inc("subscriptions_uniform")
 	}
 }
 
